@@ -247,6 +247,30 @@ def inplace_updates(p, specs_all, rng, log):
     return out
 
 
+def flip_flags(p, rng, out, phase, names, single, swlog):
+    """full_cost / discrete_cost changed AFTER construction (they are public, writable attributes read at every cost
+    evaluation): three steps, the first toggles full_cost, the others toggle one of the flags or both; after every step
+    (and, once the masks are set, a random trainability switch) every cost is observed.  The expected value is the
+    cost for the CURRENT flags."""
+    f, d = bool(p.full_cost), bool(p.discrete_cost)
+    for step in range(3):
+        which = 'full' if step == 0 else rng.choice(['full', 'disc', 'both'])
+        if which in ('full', 'both'):
+            f = not f
+            p.full_cost = f
+        if which in ('disc', 'both'):
+            d = not d
+            p.discrete_cost = d
+        if swlog is not None:
+            switch(p, rng, swlog, phase + '-flip')
+        rec = {'phase': phase, 'full': f, 'disc': d, 'flag_full_read_back': bool(p.full_cost), 'flag_disc_read_back': bool(p.discrete_cost)}
+        try:
+            rec['costs'] = {names[0]: float(p.cost)} if single else {n: float(p.get_cost(n)) for n in names}
+        except Exception as ex:
+            rec['exc'] = '%s: %s' % (type(ex).__name__, str(ex)[:200])
+        out.append(rec)
+
+
 def respecify(p, specs_all, names, single, rng, log=None):
     """after the masks are set: re-assign the cost specification (the documented on-the-fly switch rebuilds the
     layer -> cost function map from the CURRENT layers) and re-observe every cost:
@@ -339,13 +363,39 @@ def net_case(torch, seed, opts=None):
         p.eval()
         o['discrete_flag_after_init'] = p.discrete_cost
         # --- the layers as PIT sees them
-        uniq = [(ln, layer) for ln, nd, layer in p._unique_leaf_modules if isinstance(layer, (nn.Conv1d, nn.Conv2d, nn.Linear))]
+        # (read from the converted graph, NOT from PIT's own leaf-module lists: those are what is being checked)
+        calls = [(str(nd.target), nd) for nd in p.seed.graph.nodes if nd.op == 'call_module']
+        uniq, seen_l = [], set()
+        for ln, nd in calls:
+            layer = p.seed.get_submodule(ln)
+            if isinstance(layer, (nn.Conv1d, nn.Conv2d, nn.Linear)) and ln not in seen_l:
+                seen_l.add(ln)
+                uniq.append((ln, layer))
         mod_index = {id(layer): i for i, (ln, layer) in enumerate(uniq)}
-        counted = [ln for ln, layer in uniq if isinstance(layer, PITModule) or full]
+        counted_by = {True: [ln for ln, layer in uniq], False: [ln for ln, layer in uniq if isinstance(layer, PITModule)]}
+        counted = counted_by[full]
         o['counted'] = counted
-        o['orig_plain'] = {n: plain_cost(torch, nn, m, sites0, specs_all[n], counted) for n in all_names}
+        fkey = lambda f: 'full' if f else 'nas'
+        o['orig_plain_by'] = {fkey(f): {n: plain_cost(torch, nn, m, sites0, specs_all[n], counted_by[f]) for n in all_names} for f in (True, False)}
+        o['orig_plain'] = o['orig_plain_by'][fkey(full)]
         o['orig_ref'] = {n: ref_cost(n, orig_layers, counted) for n in all_names}
         o['open'] = read_costs(p, names, single)
+        o['flips'] = []
+        flip_flags(p, rng, o['flips'], 'open', names, single, None)
+        p.full_cost, p.discrete_cost = full, dc0
+        # no layer converted at all (autoconvert off): every conv / linear is a static layer, full_cost decides everything
+        try:
+            import copy
+            pn = PIT(copy.deepcopy(m), cost=cost_arg, input_shape=tuple(spec['input_shape']), autoconvert_layers=False, discrete_cost=dc0, full_cost=full)
+            pn.eval()
+            o['noauto'] = []
+            for f in ((full, not full, full) if rng.random() < 0.5 else (not full, full)):
+                pn.full_cost = f
+                pn.discrete_cost = rng.random() < 0.5
+                r = read_costs(pn, names, single)
+                o['noauto'].append({'full': f, 'costs': r['disc'], 'costs_cont': r['cont']})
+        except Exception as ex:
+            o['noauto_exc'] = '%s: %s' % (type(ex).__name__, str(ex)[:200])
         set_masks(torch, rng, p, style, tpat)
         o['switches'] = []
         switch(p, rng, o['switches'], 'pruned')
@@ -361,12 +411,13 @@ def net_case(torch, seed, opts=None):
             o['rewrap'] = read_costs(p2, names, single)
         except Exception as ex:
             o['rewrap_exc'] = '%s: %s' % (type(ex).__name__, str(ex)[:200])
-        p.discrete_cost = dc0
+        flip_flags(p, rng, o['flips'], 'pruned', names, single, o['switches'])
+        p.full_cost, p.discrete_cost = full, dc0
         summ = p.summary()
         layers = []
         for ln, layer in uniq:
             L = dict(layer_attrs(nn, layer), name=ln, search=isinstance(layer, PITModule),
-                     sites=[list(nd.meta['tensor_meta'].shape) for l2, nd, _ in p._leaf_modules if l2 == ln])
+                     sites=[list(nd.meta['tensor_meta'].shape) for l2, nd in calls if l2 == ln])
             if L['search']:
                 fm = layer.out_features_masker
                 L['afrozen'] = isinstance(fm, PITFrozenFeaturesMasker)
@@ -389,7 +440,9 @@ def net_case(torch, seed, opts=None):
             if nm in sites1:
                 exp_layers[nm] = dict(layer_attrs(nn, mod), sites=sites1[nm], numel=numel_of(nn, mod))
         o['exported'] = exp_layers
-        o['exp_plain'] = {n: plain_cost(torch, nn, e, sites1, specs_all[n], counted) for n in all_names}
+        o['exp_plain_by'] = {fkey(f): {n: plain_cost(torch, nn, e, sites1, specs_all[n], counted_by[f]) for n in all_names} for f in (True, False)}
+        o['exp_plain_generic_by'] = {fkey(f): {n: plain_cost(torch, nn, e, sites1, specs_all[n], counted_by[f], generic_for=degenerate_layers(o)) for n in all_names} for f in (True, False)}
+        o['exp_plain'] = o['exp_plain_by'][fkey(full)]
         o['exp_ref'] = {n: ref_cost(n, exp_layers, counted) for n in all_names}
         o['degenerate'] = degenerate_layers(o)
         o['exp_plain_generic'] = {n: plain_cost(torch, nn, e, sites1, specs_all[n], counted, generic_for=o['degenerate']) for n in all_names}
@@ -398,7 +451,6 @@ def net_case(torch, seed, opts=None):
         pe = PIT(e, cost=cost_arg, input_shape=tuple(spec['input_shape']), discrete_cost=dc0, full_cost=full, exclude_names=excl)
         pe.eval()
         o['reimport'] = read_costs(pe, names, single)
-        o['reimport_counted'] = [ln for ln, nd, layer in pe._unique_leaf_modules if isinstance(layer, (nn.Conv1d, nn.Conv2d, nn.Linear)) and (isinstance(layer, PITModule) or full)]
     except Exception as ex:
         o['fails'].append(('exception', '%s: %s' % (type(ex).__name__, str(ex)[:300])))
         o['trace'] = traceback.format_exc()[-1800:]
